@@ -94,4 +94,39 @@ theorem load_is_prefix_replay (cfg : Cfg) (he : cfg.shortPayloadIsEOF = true) (c
   unfold readBlocks
   rw [hread]
 
+/-- What is *not* reported.  A block header whose `CompressedSize` exceeds what is left of the file
+    ends the data silently when `cfg.shortPayloadIsEOF` (it is indistinguishable from the torn tail
+    of an interrupted append) — wherever it sits: every intact block behind it is ignored without an
+    error.  (Without the fact the same input is the error `ueof`, unless nothing follows the header.) -/
+theorem oversized_csize_hides_rest (cfg : Cfg) (he : cfg.shortPayloadIsEOF = true) (d : Decoder) (crc : Checksum)
+    (rest : Bytes) (h16 : 16 ≤ rest.length) (hbig : (rest.drop 16).length < (decodeBlockHeader rest).csize) :
+    readBlocksP cfg d crc rest = ([], none) := by
+  apply readBlocksP_eof
+  unfold readNextBlock
+  simp only [shorterThan_eq, decide_eq_true_eq]
+  rw [if_neg (by omega)]
+  by_cases hemp : (rest.drop 16).isEmpty = true
+  · have : 0 < (decodeBlockHeader rest).csize := by omega
+    simp [hemp, this]
+  · simp only [Bool.not_eq_true] at hemp
+    simp only [hemp, Bool.and_false, Bool.false_eq_true, if_false]
+    rw [if_pos hbig]
+    simp [he]
+
+/-- the same at file level: blocks written before the damaged header load, everything after it is
+    dropped, and `LoadIndex` returns no error -/
+theorem load_after_oversized_csize (cfg : Cfg) (he : cfg.shortPayloadIsEOF = true) (codec : Codec) (crc : Checksum)
+    (h : FileHeader) (name : Bytes) (before : List (List Entry)) (rest : Bytes) (hv : h.Valid) (hn : NameOk h name)
+    (hg : ∀ b ∈ before, GoodBlock b) (h16 : 16 ≤ rest.length)
+    (hbig : (rest.drop 16).length < (decodeBlockHeader rest).csize) :
+    loadIndex cfg codec.toDecoder crc (encodeFileHeader h ++ (name ++ (renderBlocks codec crc before ++ rest)))
+      = .ok (replay cfg before.flatten, if name.isEmpty then metaName before.flatten else name) := by
+  unfold loadIndex
+  rw [openReader_prefix h name _ hv hn]
+  simp only
+  rw [drop_dataStart h name _ hn]
+  unfold readBlocks
+  rw [readBlocksP_blocks cfg codec crc before rest hg, oversized_csize_hides_rest cfg he _ crc rest h16 hbig]
+  simp
+
 end Hv.Storage
